@@ -1,7 +1,7 @@
 (** C04 — load, save, load again: foreign and legacy input is normalised without loss.
     Statements only; proofs live in Proofs/FontRTP.v and Proofs/FontToyP.v. *)
-Require Import Norad.Model.Base Norad.Model.FontRT Norad.Model.FontToy
-               Norad.Proofs.FontRTP Norad.Proofs.FontToyP.
+Require Import Norad.Model.Base Norad.Model.FontRT Norad.Model.FontToy Norad.Model.FontNum
+               Norad.Proofs.FontRTP Norad.Proofs.FontToyP Norad.Proofs.FontNumP.
 Open Scope N_scope.
 
 (** whatever the format of the input (1, 2 or 3), a loaded font says format 3 *)
@@ -46,6 +46,12 @@ Theorem C04_orphan_object_libs_witness :
   orphan_object_libs toy_sig toy_orphan_tree /\
   exists f, load toy_sig toy_orphan_tree = Ok f /\ forall o, save toy_sig o f = Err SPreexistingObjectLibs.
 Proof. exact orphan_witness. Qed.
+
+(** numbers: a value within 2^-52 of a non-zero integer is written as that integer — inside the
+    tolerance of C01 but not "the same value": 1 + 2^-52 comes back as 1 *)
+Theorem C04_refuted_near_integer_rounded :
+  exists (v : Q) (t : Z), written_as_integer v t /\ within v (inject_Z t) /\ KnownClass_near_integer_rounded v t.
+Proof. eexists. eexists. exact near_integer_witness. Qed.
 
 (** Non-vacuity *)
 Example C04_laws_satisfiable : sig_ok toy_sig /\ sig_closed toy_sig.
